@@ -269,6 +269,32 @@ def run_case(case, ctx):
         except Exception as exc:
             ctx.reject('call_raised', observed=repr(exc), detail=dict(N=N, used=used, column_of_inf=True))
             return
+    if case['seed'] % 4 == 2:
+        # whole-number sequences handed over in an integer type (int64 / int32 arrays, lists of Python ints): the same numbers as
+        # floats give L in every slot, so these do too.  Integral ratio, integral steps rho^(N-1-k), integer L and amplitudes.
+        irng = np.random.default_rng(case['seed'] + 5)
+        rho_i, sp_i, od_i = int(irng.choice([2, 3, 4])), int(irng.integers(1, 3)), int(irng.integers(1, 3))
+        T_i, N_i = int(irng.integers(1, 3)), int(irng.integers(3, 6))
+        L_i = int(irng.integers(-50, 51)) * int(irng.choice([1, 1000]))
+        amps = [int(irng.integers(1, 9)) * int(irng.choice([-1, 1])) for _ in range(T_i)]
+        hs_i = [rho_i ** (N_i - 1 - k) for k in range(N_i)]
+        vals = [L_i + sum(a_ * h_ ** (od_i + sp_i * j) for j, a_ in enumerate(amps)) for h_ in hs_i]
+        form = ['int64', 'int32'][case['seed'] // 4 % 2]       # (ndarrays: the sequence is documented as an array)
+        if form != 'int32' or max(abs(v) for v in vals) < 2 ** 31:
+            seq_i = np.array(vals, dtype=form) if form != 'list' else list(vals)
+            try:
+                ri = Richardson(step_ratio=float(rho_i), step=sp_i, order=od_i, num_terms=T_i)
+                out_i, _e, _h = ri(seq_i, np.array(hs_i, dtype=float))
+                ctx.count('integer_typed_sequences_asserted')
+                out_i = np.asarray(out_i, dtype=float)
+                tol_i = 1e-9 * (abs(L_i) + max(abs(v) for v in vals))
+                if out_i.shape != (N_i - T_i,) or not np.all(np.abs(out_i - L_i) <= tol_i):
+                    ctx.reject('limit_not_recovered', observed=out_i, expected=L_i,
+                               detail=dict(sequence=vals, given_as=form, ratio=rho_i, order=od_i, spacing=sp_i, num_terms=T_i))
+                    return
+            except Exception as exc:
+                ctx.reject('call_raised', observed=repr(exc), detail=dict(integer_typed_sequence=True, given_as=form))
+                return
     if well and used >= 1 and nmodel >= 1:
         ctx.nontrivial((cplx, spacing, order, used, N))
     if len(ctx.samples) < 2:
